@@ -762,8 +762,6 @@ def scenario_update_identity(rng, props, fails, stats):
 def scenario_fd(rng, props, fails, stats):
     """C16: finite-difference modes with active bounds: no exception, stencil inside the box, value close to exact."""
     p = problem(rng, kind=rng.choice(["qp", "qp4", "softplus"]))
-    if np.any(p.lb == p.ub):
-        return describe(p, {})           # degenerate sides with FD: known finding KF1 (checked by C04's clause)
     mode = rng.choice([None, "2-point", "3-point", "cs"])
     if mode == "cs" and p.name == "softplus":
         mode = "3-point"
